@@ -470,7 +470,11 @@ func runCase(p *PackageSpec, prop string, scn int, race bool, tag string, replay
 	// the program is built with a tag that cff did not see: constants declared
 	// per build configuration (bc_on.go / bc_off.go) have other values now
 	// than when the code was generated
-	bargs := []string{"test", "-c", "-tags", "verifb", "-o", filepath.Join(dir, "inner.test")}
+	tags := "verifb"
+	if *flagProp == "C04" {
+		tags = "verifb,verif" // the scheduler's hook points (panic-first scenario)
+	}
+	bargs := []string{"test", "-c", "-tags", tags, "-o", filepath.Join(dir, "inner.test")}
 	if race {
 		bargs = append(bargs, "-race")
 	}
